@@ -8,6 +8,7 @@ import (
 	"io"
 	"net"
 	"strings"
+	"sync"
 	"time"
 
 	"github.com/gammazero/nexus/v3/stdlog"
@@ -34,6 +35,10 @@ type rawSocketPeer struct {
 	ctxSender    context.Context
 
 	writerDone chan struct{}
+
+	// writeMutex serializes writing frames to the socket, since both the send
+	// handler (messages) and the receive handler (PONG) write to it.
+	writeMutex sync.Mutex
 
 	log stdlog.StdLog
 }
@@ -220,13 +225,17 @@ sendLoop:
 			}
 			lenBytes := intToBytes(len(b))
 			header := []byte{0x0, lenBytes[0], lenBytes[1], lenBytes[2]}
+			rs.writeMutex.Lock()
 			if _, err = rs.conn.Write(header); err != nil {
+				rs.writeMutex.Unlock()
 				if !wamp.IsGoodbyeAck(msg) {
 					rs.log.Println("Error writing header:", err)
 				}
 				continue sendLoop
 			}
-			if _, err = rs.conn.Write(b); err != nil {
+			_, err = rs.conn.Write(b)
+			rs.writeMutex.Unlock()
+			if err != nil {
 				if !wamp.IsGoodbyeAck(msg) {
 					rs.log.Println("Error writing message:", msg, err)
 				}
@@ -290,13 +299,21 @@ MsgLoop:
 				continue MsgLoop
 			}
 		case 1: // PING
-			header[0] = 0x02
-			if _, err = rs.conn.Write(header[:]); err != nil {
-				rs.log.Println("Error writing header responding to PING:", err)
+			// Read the whole payload first, so that the PONG frame can be
+			// written without the send handler's frames getting in between.
+			buf := make([]byte, length)
+			if _, err = io.ReadFull(rs.conn, buf); err != nil {
+				rs.log.Println("Error reading PING:", err)
 				_ = rs.conn.Close()
 				return
 			}
-			if _, err = io.CopyN(rs.conn, rs.conn, int64(length)); err != nil {
+			header[0] = 0x02
+			rs.writeMutex.Lock()
+			if _, err = rs.conn.Write(header[:]); err == nil {
+				_, err = rs.conn.Write(buf)
+			}
+			rs.writeMutex.Unlock()
+			if err != nil {
 				rs.log.Println("Error responding to PING:", err)
 				_ = rs.conn.Close()
 				return
